@@ -108,6 +108,11 @@ pub fn handle_watch(conn: &mut Connection, parts: &[RespFrame], storage: &Arc<St
             RespFrame::BulkString(Some(bytes)) => {
                 let key = bytes.as_ref().clone();
                 
+                // A key that is already watched keeps its first baseline (and is registered once)
+                if conn.transaction_state.watched_keys.contains_key(&key) {
+                    continue;
+                }
+                
                 // Register the watch with storage engine
                 match storage.register_watch(conn.db_index, &key) {
                     Ok(baseline_counter) => {
